@@ -7,7 +7,7 @@ checks, na = [], []
 for p in props:
     pid = p["id"]
     frag = os.path.join(V, "props", pid, "manifest.json")
-    if os.path.exists(frag):
+    if os.path.exists(frag) and os.path.exists(os.path.join(V, "props", pid, "READY")):
         f = json.load(open(frag))
         if f.get("not_applicable"):
             na.append({"property_id": pid, "reason": f["not_applicable"]})
